@@ -965,7 +965,16 @@ def _reset_module_state():
     h.atexit_registered = True  # never register with the real atexit from inside an execution
     import more_executors._impl.futures.base as fbase
     from more_executors._impl.executors import Executors
+    old = fbase.EXECUTOR
     fbase.EXECUTOR = Executors.sync(name="internal")
+    # the singleton was built at import time with real locks: every alias of it (from .base import EXECUTOR) must
+    # see the per-execution one, or a thread blocks on a lock the scheduler does not control
+    for mod in list(sys.modules.values()):
+        if mod is None or not getattr(mod, "__name__", "").startswith("more_executors"):
+            continue
+        for k, v in list(vars(mod).items()):
+            if v is old and not (mod is fbase and k == "EXECUTOR"):
+                setattr(mod, k, fbase.EXECUTOR)
     import more_executors._impl.futures.timeout as ft
     ft.EXECUTOR_REF = None
     import concurrent.futures.thread as cft
